@@ -2,7 +2,7 @@
 from vf.ch import Ob
 
 KINDS = ["add_column", "drop_column", "rename_column", "modify_column", "add_pk", "add_unique_1", "add_unique_2", "add_check",
-         "add_default_for", "add_fk_2", "create_index"]
+         "add_default_for", "add_fk_2", "create_index", "drop_first", "rename_first", "modify_first", "modify_last"]
 FN = ["simple_ddl_parser/output/core.py:Output.format, process_statement_data, process_alter_and_index_result, add_alter_to_table, add_index_to_table, "
       "clean_up_index_statement, get_table_from_tables_data", "simple_ddl_parser/utils.py:get_table_id, normalize_name",
       "simple_ddl_parser/output/base_data.py:append_statement_information_to_table, prepare_alter_columns, create_alter_column_references, alter_drop_columns, "
